@@ -657,8 +657,23 @@ fn pick_next<M: AsRef<[Machine]>>(
         return pick_next(sq, client, server, network, current_time);
     }
 
+    // the begin of blocking is reported before its end: while a BlockingBegin
+    // of the side whose blocking expires is still queued at or before the
+    // expiry (blocking with a zero duration), the queue goes first
+    let begin_pending = b != Duration::MAX && {
+        let expiry = current_time + b;
+        let internal = if b_is_client {
+            &sq.client.internal
+        } else {
+            &sq.server.internal
+        };
+        internal.iter().any(|e| {
+            matches!(e.event, TriggerEvent::BlockingBegin { .. }) && e.time <= expiry
+        })
+    };
+
     // next is blocking expiry, fundamental due to how we aggregate delay
-    if b <= s && b <= i && b <= q {
+    if b <= s && b <= i && b <= q && !begin_pending {
         debug!("\tpick_next(): picked blocking");
         // create SimEvent and turn off blocking, ASSUMPTION: block outgoing is
         // reported from integration
@@ -909,7 +924,7 @@ fn do_scheduled_action<M: AsRef<[Machine]>>(
 
             // should we update client/server blocking?
             if is_client {
-                if replace || block > client.blocking_until.unwrap_or(a.time) {
+                if replace || client.blocking_until.map_or(true, |until| block > until) {
                     // ongoing blocking stays bypassable only if every action
                     // that started or updated it allows bypass
                     client.blocking_bypassable =
@@ -918,7 +933,7 @@ fn do_scheduled_action<M: AsRef<[Machine]>>(
                 }
                 event_bypass = client.blocking_bypassable;
             } else {
-                if replace || block > server.blocking_until.unwrap_or(a.time) {
+                if replace || server.blocking_until.map_or(true, |until| block > until) {
                     server.blocking_bypassable =
                         bypass && (server.blocking_until.is_none() || server.blocking_bypassable);
                     server.blocking_until = Some(block);
